@@ -16,5 +16,6 @@ var registry = map[string]simkit.World{
 	"C05": fsmworld.C05{},
 	"C06": fsmworld.C06{},
 	"C07": fsmworld.C07{},
+	"C10": fsmworld.C10{},
 	"C20": archiveworld.World{},
 }
